@@ -229,39 +229,19 @@ type AccountInfo struct {
 	Coins    std.Coins
 }
 
-type accountWrap struct {
-	BaseAccount struct {
-		Address       string `json:"address"`
-		Coins         string `json:"coins"`
-		AccountNumber string `json:"account_number"`
-		Sequence      string `json:"sequence"`
-	} `json:"BaseAccount"`
-}
-
-// Account reads the account from committed state.
+// Account reads the account from committed state through the independent
+// keeper stack (works for every account type: base, gno, vesting).
 func (c *Chain) Account(addr crypto.Address) (AccountInfo, error) {
-	r := c.Query("auth/accounts/"+addr.String(), nil)
-	if r.Error != nil {
-		return AccountInfo{}, fmt.Errorf("%v", r.Error)
+	rd, err := OpenReader(c.DB)
+	if err != nil {
+		return AccountInfo{}, err
 	}
-	if len(r.Data) == 0 || string(r.Data) == "null" {
+	acc := rd.Acck.GetAccount(rd.Ctx, addr)
+	if acc == nil {
 		return AccountInfo{}, nil
 	}
-	var w accountWrap
-	if err := amino.UnmarshalJSON(r.Data, &w); err != nil {
-		// fall back to generic decoding of gnoland account
-		var acc gnoland.GnoAccount
-		if err2 := amino.UnmarshalJSON(r.Data, &acc); err2 != nil {
-			return AccountInfo{}, fmt.Errorf("decode account %s: %v / %v", r.Data, err, err2)
-		}
-		return AccountInfo{Exists: true, Number: acc.AccountNumber, Sequence: acc.Sequence, Coins: acc.Coins}, nil
-	}
-	var ai AccountInfo
-	ai.Exists = true
-	fmt.Sscan(w.BaseAccount.AccountNumber, &ai.Number)
-	fmt.Sscan(w.BaseAccount.Sequence, &ai.Sequence)
-	ai.Coins, _ = std.ParseCoins(w.BaseAccount.Coins)
-	return ai, nil
+	coins := rd.Bankk.GetCoins(rd.Ctx, addr)
+	return AccountInfo{Exists: true, Number: acc.GetAccountNumber(), Sequence: acc.GetSequence(), Coins: coins}, nil
 }
 
 // SignTx signs msgs with the given keys using explicit numbers/sequences.
